@@ -39,6 +39,21 @@ def run(chk, repo, tier):
                        "operation computed by the checker, and must be stored reduced and in the operand's class. The Euclid "
                        "loop is checked by invariant, the power routines by loop invariant / induction schema, and the call "
                        "graph of operator methods for operator-dispatched recursion.")
+    # restate C20
+    from . import C20 as _dep_C20
+    from ..report import SubCheck as _SubCheck
+    chk.rule("C08.R7", "the field classes hold no shared mutable state (C20 re-stated)", 50)
+    _sub = _SubCheck()
+    _err = None
+    try:
+        _dep_C20.run(_sub, repo, tier)
+    except AnalysisError as _e:
+        _err = _e
+    for _rule, _construct, _key, _ok, _detail, _where in _sub.obs:
+        if True:
+            chk.ob("C08.R7", _construct, f"[{_rule}] {_key}", _ok, _detail, _where)
+    if _err is not None and all(o[3] for o in _sub.obs):
+        raise _err
     chk.rule("C08.R1", "FQ operators (element and int operands) equal the F_p operation on canonical representatives", 4 * 30)
     chk.rule("C08.R2", "FQP operators equal the operation of F_p[X]/(m) with the class's modulus (degree 2 and 12, both curves)", 8 * 15)
     chk.rule("C08.R3", "every stored value is reduced (class invariant) and field attributes are written only in constructors", 1)
@@ -81,15 +96,18 @@ def run(chk, repo, tier):
         for key, ok, det in check_euclid(w, f):
             chk.ob("C08.R4", q, key, ok, det, f.where)
     # ---- R5 / R6
+    pow_obligations(chk, repo, w)
+    chk.note_analysed(field_classes=len(classes), operator_obligations=nres)
+
+def pow_obligations(chk, repo, w, r5="C08.R5", r6="C08.R6"):
     for q, d in ((f"{REF}.FQ.__pow__", None), (f"{REF}.FQP.__pow__", 2), (f"{OPT}.FQ.__pow__", None), (f"{OPT}.FQP.__pow__", 12)):
         m = repo.func(q)
         res, reentry = check_pow(w, m, d)
         for key, ok, det in res:
-            chk.ob("C08.R5", q, key, ok, det, m.where)
-        chk.ob("C08.R6", q, "`**` inside __pow__ re-enters __pow__ through operator dispatch", not reentry,
+            chk.ob(r5, q, key, ok, det, m.where)
+        chk.ob(r6, q, "`**` inside __pow__ re-enters __pow__ through operator dispatch", not reentry,
                (f"{len(reentry)} re-entry site(s): each exponent bit consumes one C-stack level on CPython ≥ 3.12 regardless of "
                 f"sys.setrecursionlimit; x ** n fails for n ≳ 2^750") if reentry else "iterative", m.where)
-    chk.note_analysed(field_classes=len(classes), operator_obligations=nres)
 
 
 MANIFEST = {
